@@ -298,6 +298,7 @@ def verify_unit(unit, digit, mode, canary=False, use_cache=True):
             return None
         failures = []
         others = []
+        text_lines = text.split('\n')
         for d in res['diagnostics']:
             if d['level'] != 'error':
                 continue
@@ -341,7 +342,7 @@ def verify_unit(unit, digit, mode, canary=False, use_cache=True):
                 status = 'failed'
             items.append(dict(key=it.key, kind=it.kind, status=status, obligations=ob, discharged=(ob if status == 'proved' else max(0, ob - max(1, len(fl))) if status in ('failed', 'rlimit') else 0),
                               smt_us=rec['time_us'] if rec else None, rlimit=rec['rlimit'] if rec else None,
-                              align_ratio=round(it.ratio, 4), identical=it.identical, rewrites=it.log, code_tokens=it.code_tokens, n_canaries=it.n_canaries, canaries_fired=(sum(1 for x in fl if 'assertion failed' in x['message']) if canary else None),
+                              align_ratio=round(it.ratio, 4), identical=it.identical, rewrites=it.log, code_tokens=it.code_tokens, n_canaries=it.n_canaries, canaries_fired=(sum(1 for x in fl if 'assertion failed' in x['message']) if canary else None), canary_ids=(sorted({cid for cid in (_canary_id(text_lines, x.get('line')) for x in fl if 'assertion failed' in x['message']) if cid is not None}) if canary else None),
                               failures=[dict(message=x['message'], rendered=x['rendered'], cls=x['cls']) for x in fl]))
         if not ran_verification and not canary:
             # ghost text that no longer compiles against a changed function: retry with that function degraded to
@@ -385,6 +386,18 @@ def get_generator(digit, mode):
             g.build_items()
             _gen_cache[k] = g
         return _gen_cache[k]
+
+
+def _canary_id(text_lines, line):
+    """index K of the canary `if bn_canary__(K) { assert(false); }` whose assertion is at `line`"""
+    if not line:
+        return None
+    for l in range(line - 1, max(-1, line - 5), -1):
+        if 0 <= l < len(text_lines):
+            m = re.search(r'bn_canary__ \( (\d+) \)', text_lines[l])
+            if m:
+                return int(m.group(1))
+    return None
 
 
 def _fn_matches(fn, it, crate):
